@@ -152,10 +152,92 @@ def run_closed(ctx):
     ctx.oblige(TRUE(all(a[k, 0] is pts[k % 4].R and a[k, 1] is pts[k % 4].Z for k in range(5))), "closed_wallarray = wall followed by its first point")
 
 
+FN_ADD = "hypnotoad.core.mesh:MeshRegion.addPointAtWallToContours"
+
+
+def make_wall_points_run(lower_wall, upper_wall, li, ui, n=5):
+    """Real MeshRegion.addPointAtWallToContours on one real PsiContour of n symbolic points;
+    _find_intersection (C20 + refinement) is replaced by its result: the wall point W_l lies on
+    segment (li, li+1) and W_u on segment (ui, ui+1) of the contour."""
+
+    def run(ctx):
+        from hypnotoad.core import mesh as M
+        from hypnotoad.core.equilibrium import Point2D, PsiContour
+
+        r = mk.skeleton_region(False, wall_point_exclude_radius=ctx.real("exclude_radius"))
+        ctx.assume(r.user_options.wall_point_exclude_radius > 0)
+        r.connections = dict(lower=None if lower_wall else 7, upper=None if upper_wall else 8, inner=None, outer=None)
+        r.equilibriumRegion.psi = None
+        c = object.__new__(PsiContour)
+        P = [Point2D(ctx.real("R%d" % k), ctx.real("Z%d" % k)) for k in range(n)]
+        c.points = list(P)
+        c._startInd, c._endInd = 0, n - 1
+        c._fine_contour = c._distance = None
+        Wl, Wu = Point2D(ctx.real("Rwl"), ctx.real("Zwl")), Point2D(ctx.real("Rwu"), ctx.real("Zwu"))
+        if lower_wall and upper_wall:
+            # pre: the two targets of one flux surface are not within the exclusion radius of each other
+            ctx.assume((Wl.R - Wu.R) ** 2 + (Wl.Z - Wu.Z) ** 2 >= r.user_options.wall_point_exclude_radius ** 2)
+        resets = []
+        c._reset_cached = lambda: resets.append((c._startInd, c._endInd))
+        c.totalDistance = lambda psi=None: ctx.real("new_total_distance")
+        r.contours = [c]
+        calls = []
+
+        def pmap(f, tasks, **kw):
+            calls.append(f.__name__)
+            tasks = list(tasks)
+            if f.__name__ == "_find_intersection":
+                return [(c, li, Wl if lower_wall else None, ui, Wu if upper_wall else None)]
+            return [t[1] for t in tasks]
+
+        r.parallel_map = pmap
+
+        c.contourSfunc = lambda psi=None: (lambda i: ctx.real("sorth_at_%s" % str(i).replace(".", "_").replace("-", "m")))
+        M.MeshRegion.addPointAtWallToContours(r)
+        c2 = r.contours[0]
+        norm = lambda k: k if k >= 0 else k + len(c2.points)
+        with spec_mode():
+            ctx.oblige(TRUE(calls == ["_find_intersection", "_refine_extend"]), "wall intersections are found, then the contour is refined/extended")
+            ctx.oblige(TRUE(c2 is c), "the contour returned by the intersection search is the one kept")
+            pts = c2.points
+            if lower_wall:
+                ctx.oblige(TRUE(pts[c2.startInd] is Wl), "lower target: contour[startInd] IS the wall point")
+                ctx.oblige(TRUE(sum(1 for q in pts if q is Wl) == 1), "the lower wall point appears exactly once")
+            else:
+                ctx.oblige(TRUE(norm(c2.startInd) == 0 and pts[0] is P[0]), "no lower wall: start of the contour untouched")
+            if upper_wall:
+                ctx.oblige(TRUE(pts[c2.endInd] is Wu), "upper target: contour[endInd] IS the wall point")
+                ctx.oblige(TRUE(sum(1 for q in pts if q is Wu) == 1), "the upper wall point appears exactly once")
+            else:
+                ctx.oblige(TRUE(norm(c2.endInd) == len(pts) - 1 and pts[-1] is P[-1]), "no upper wall: end of the contour untouched")
+            a, b = norm(c2.startInd), norm(c2.endInd)
+            ctx.oblige(TRUE(a < b), "target indices ordered")
+            # the domain part of the contour: original points, original order, all of them from
+            # the far side of the lower intersected segment to the near side of the upper one,
+            # except a point within the exclusion radius of a wall point (replaced by it)
+            lo = (li + 1) if lower_wall else 1
+            hi = (ui if ui >= 0 else ui + n) if upper_wall else n - 2
+            inner = list(pts[a + 1 : b])
+            ids = [next((k for k, p0 in enumerate(P) if p0 is q), None) for q in inner]
+            ctx.oblige(TRUE(all(k is not None for k in ids) and ids == sorted(ids) and len(set(ids)) == len(ids)), "points between the targets are original points in original order")
+            ctx.oblige(TRUE(all(lo <= k <= hi for k in ids)), "points between the targets all lie between the two intersected segments")
+            missing = [k for k in range(lo, hi + 1) if k not in ids]
+            for k in missing:
+                near_l = ((P[k].R - Wl.R) ** 2 + (P[k].Z - Wl.Z) ** 2 < r.user_options.wall_point_exclude_radius ** 2) if lower_wall else TRUE(False)
+                near_u = ((P[k].R - Wu.R) ** 2 + (P[k].Z - Wu.Z) ** 2 < r.user_options.wall_point_exclude_radius ** 2) if upper_wall else TRUE(False)
+                ctx.oblige(Or(near_l, near_u), "original point %d dropped only because it is within the exclusion radius of a wall point" % k)
+            if lower_wall:
+                ctx.oblige(TRUE(len(resets) >= 1), "cached distances reset after moving the start index")
+        return c2
+
+    return run
+
+
 def build(S):
     mk.silence_pyplot()
-    S.under_contract(FN_PM, FN_INIT, "hypnotoad.core.equilibrium:Equilibrium.__init__", "hypnotoad.utils.polygons:clockwise")
+    S.under_contract(FN_ADD, FN_PM, FN_INIT, "hypnotoad.core.equilibrium:Equilibrium.__init__", "hypnotoad.utils.polygons:clockwise")
     S.assume("ASSUMED, not established by the code: the centre of the (Rmin,Rmax)x(Zmin,Zmax) box lies inside the wall, so that crossing parity from it decides inside/outside")
+    S.assume("addPointAtWallToContours: _find_intersection is replaced by its result (wall point on a given segment; C20 wallIntersection + C01 refinement); precondition: the two wall points of one contour are at least wall_point_exclude_radius apart; contourSfunc / totalDistance are stubs")
     S.assume("crossing parity is taken from find_intersections (contract C20); a ray through a wall vertex counts two rows (C20 shared-vertex clause)")
     S.extraction.append(dict(function="TokamakEquilibrium.__init__", sliced="statements from `if wall is None:` to `self.wall = [...]`; Equilibrium.__init__: the two closed_wall assignments"))
     with numpy_shimmed():
@@ -165,6 +247,8 @@ def build(S):
                     S.contract("calcPenaltyMask[p1_out=%s,p2_out=%s,crossing=%s]" % (p1, p2, cross), FN_PM, make_pm_run(p1, p2, cross), shape="nx=ny=1")
         for n in (3, 4, 5):
             S.contract("wall-normalisation[n=%d]" % n, FN_INIT, make_wall_run(n), expected_exceptions=(), shape="n=%d vertices" % n)
+        for lw, uw, li, ui in ((True, False, 0, -2), (True, False, 1, -2), (False, True, 0, 2), (False, True, 0, -2), (True, True, 0, 3), (True, True, 1, -2), (True, True, 1, 2)):
+            S.contract("addPointAtWallToContours[%s%s,li=%d,ui=%d]" % ("L" if lw else "-", "U" if uw else "-", li, ui), FN_ADD, make_wall_points_run(lw, uw, li, ui), shape="one contour of 5 symbolic points; _find_intersection replaced by its result")
         S.contract("closed_wallarray", "hypnotoad.core.equilibrium:Equilibrium.__init__", run_closed, shape="4 vertices")
 
 
